@@ -42,7 +42,7 @@ HARD_FLOATS = [0.1, 1e-5, 0.005311234567890123, 123456.789, -2.5e-7, 1e22, 3.0, 
 
 def budget(tier):
     if tier == "quick":
-        return {"examples": 1600, "shards": 16, "time_s": 60}
+        return {"examples": 4800, "shards": 16, "time_s": 60}
     return {"examples": 192000, "shards": 16, "time_s": 1500}
 
 
